@@ -329,6 +329,16 @@ def h7(ctx):
                 ctx.violate(key, p, 'eq is not a pure address comparison: %s' % fmt(r))
 
 
+def mentions_fields(b, names):
+    import json as _j
+    for blk in b.blocks:
+        s = _j.dumps(blk)
+        for n in names:
+            if '"f": "%s"' % n in s:
+                return True
+    return False
+
+
 INSERT = {'push_back': 'back', 'push_front': 'front'}
 REMOVE = {'pop_front': 'front', 'pop_back': 'back'}
 ORDER_PRESERVING = {'remove', 'clear', 'retain', 'truncate'}
@@ -339,9 +349,8 @@ READONLY = {'len', 'is_empty', 'iter', 'capacity', 'front', 'back', 'get', 'cont
 def q1(ctx):
     sites = {}  # (which, method) -> set of (body, bb)
     for key, b in ctx.facts.bodies.items():
-        if not any(n.startswith('std::collections::VecDeque::') for n in b.callee_names()):
-            # still look for &mut queue escaping
-            pass
+        if not any(n.startswith('std::collections::VecDeque::') for n in b.callee_names()) and not mentions_fields(b, ('queue', 'wait_list')):
+            continue
         ps = ctx.paths(b)
         if ps is None:
             continue
